@@ -33,6 +33,9 @@ Definition leaf_size_guard (l : leaf) : bool :=
   | LUuidTfrf _ _ cnt es => cnt <=? lenN es
   | LUuidSenc _ _ raw rs np => rs =? 16 + (if np then lenN raw else 0)
   | LUuidUnk u _ => lenN u =? 16
+  | LSgpd v _ gt dlen _ items _ =>
+      (lenN gt =? 4) && forallb (fun it => lenN (wr_sge (snd it) 0) =? fst it) items &&
+      ((dlen =? 0) || forallb (fun it => fst it =? dlen) items) && ((1 <=? v) || (lenN items =? 0))
   | _ => true
   end.
 
@@ -108,6 +111,21 @@ Qed.
 
 Lemma lenN_wr_pairw w p : lenN (wr_pairw w p) = 2 * N.of_nat w.
 Proof. unfold wr_pairw. rewrite lenN_app, !lenN_be_enc. lia. Qed.
+
+Lemma lenN_sgpd_items dlen items : forallb (fun it => lenN (wr_sge (snd it) 0) =? fst it) items = true ->
+  lenN (flat_map (wr_sgpd_item dlen) (combine items (map (fun _ => 0) items))) =
+  sumN (map (fun it => (if dlen =? 0 then 4 else 0) + fst it) items).
+Proof.
+  induction items as [|it t IH]; intros H; [reflexivity|]. cbn [forallb] in H. apply andb_true_iff in H. destruct H as [H1 H2].
+  apply N.eqb_eq in H1. cbn [map combine flat_map sumN]. unfold wr_sgpd_item at 1. cbn [fst snd].
+  rewrite !lenN_app, H1, (IH H2). destruct (dlen =? 0); rewrite ?lenN_be_enc; change (lenN (@nil N)) with 0; lia.
+Qed.
+Lemma sumN_const_fst dlen (items : list (N * sge)) : forallb (fun it => fst it =? dlen) items = true ->
+  sumN (map (fun it => 0 + fst it) items) = lenN items * dlen.
+Proof.
+  induction items as [|it t IH]; intros H; [reflexivity|]. cbn [forallb] in H. apply andb_true_iff in H. destruct H as [H1 H2].
+  apply N.eqb_eq in H1. cbn [map sumN]. rewrite (IH H2), lenN_cons, H1. lia.
+Qed.
 
 Lemma lenN_unity : lenN unity_matrix = 36.
 Proof. reflexivity. Qed.
@@ -232,4 +250,14 @@ Proof.
   - (* uuid piff senc *) destruct (negb notParsed && has flags 2 && (0 <? count)); [discriminate|]. injection Eb as <-.
     apply N.eqb_eq in G. destruct notParsed; lens; change (lenN uuid_piff) with 16; lia.
   - (* uuid unknown *) apply N.eqb_eq in G. lens. lia.
+  - (* sgpd *) apply andb_true_iff in G. destruct G as [G G4]. apply andb_true_iff in G. destruct G as [G G3].
+    apply andb_true_iff in G. destruct G as [G1 G2]. apply N.eqb_eq in G1. cbn [size_leaf]. unfold wr_if.
+    assert (Hit := lenN_sgpd_items dlen items G2).
+    destruct (1 <=? version) eqn:E1.
+    + destruct (dlen =? 0) eqn:Ed; cbn [negb orb] in *.
+      * destruct (2 <=? version); lens; rewrite Hit; lia.
+      * rewrite (sumN_const_fst _ _ G3) in Hit. destruct (2 <=? version); lens; rewrite Hit; lia.
+    + cbn [orb] in G4. apply N.eqb_eq in G4. assert (items = []) by (destruct items; [reflexivity|rewrite lenN_cons in G4; lia]). subst items.
+      replace (2 <=? version) with false by (symmetry; apply N.leb_gt; apply N.leb_gt in E1; lia).
+      lens. cbn [map combine flat_map]. change (lenN (@nil N)) with 0. lia.
 Qed.
